@@ -1,11 +1,11 @@
 #!/bin/bash
 # run_benign.sh <group> <props comma separated> [patch numbers...]
-# Runs the quick checks against each behaviour-preserving patch /tmp/benign-<group>/patchN.diff (as a build overlay).
+# Runs the quick checks against each behaviour-preserving patch /verif/benign/<group>/patchN.diff (as a build overlay).
 # A correct patch must leave every check silent (exit 0, no VIOLATION line).
 g=$1; props=$2; shift 2
 nums=${@:-1 2 3 4 5}
 for n in $nums; do
-  p=/tmp/benign-$g/patch$n.diff
+  p=/verif/benign/$g/patch$n.diff
   [ -f "$p" ] || { echo "$g patch$n: missing"; continue; }
   for pr in ${props//,/ }; do
     out=$(/verif/selftest/run.py --patch "$p" --props "$pr" --no-suite -v 2>&1)
